@@ -92,3 +92,22 @@ Theorem C19_chunk_own_tags : forall pre s post t,
             (cs_bin s <> 0 -> b = cs_bin s).
 Proof. exact chunk_own_tags. Qed.
 Print Assumptions C19_chunk_own_tags.
+
+(* ---- what a source's store ignores: its own (or inherited) ignore list, the standard
+   ignores, and the patterns of ITS OWN tags whose method is not http ----------------- *)
+Theorem C19_store_ignores_own_lists_and_tags : forall pre s post inc ign t,
+  is_lists s = Some (inc, ign) -> is_tags s = Some t ->
+  nth (length pre) (ignore_table (pre ++ s :: post)) ([], []) =
+  (inc, ign ++ [STD_LCK; STD_DISABLED] ++ map fst (filter snd t)).
+Proof. exact ignore_row_own. Qed.
+Print Assumptions C19_store_ignores_own_lists_and_tags.
+
+Theorem C19_inherited_lists_own_tags : forall s0 s1 post inc ign t0 t1,
+  is_lists s0 = Some (inc, ign) -> is_tags s0 = Some t0 ->
+  is_lists s1 = None -> is_tags s1 = Some t1 ->
+  nth 1 (ignore_table (s0 :: s1 :: post)) ([], []) =
+  (inc, ign ++ [STD_LCK; STD_DISABLED] ++ map fst (filter snd t1)) /\
+  nth 0 (ignore_table (s0 :: s1 :: post)) ([], []) =
+  (inc, ign ++ [STD_LCK; STD_DISABLED] ++ map fst (filter snd t0)).
+Proof. exact ignore_row_inherited_lists. Qed.
+Print Assumptions C19_inherited_lists_own_tags.
